@@ -11,7 +11,7 @@ from dataclasses import dataclass
 from typing import Any, Dict, List, Optional, Sequence, Set, Tuple
 
 from ..collect import Path, callee_is, run_paths
-from ..common import calls_in, construct, where
+from ..common import defs_of, calls_in, construct, where
 from ..flow import NONE, Value, contains, show, subterms
 from ..fold import Folder, NotConst
 from ..loader import AnalysisError, ClassInfo, FuncInfo, Program, walk_shallow
@@ -147,10 +147,10 @@ def run(p: Program, rep: Report, tier: str) -> None:
     for c in calls_in(inner) if inner else []:
         if isinstance(c.func, ast.Name) and c.func.id == "view":
             a = c.args
-            if len(a) == 1 and isinstance(a[0], ast.Name):
-                # the argument must be the WebSocket(...) wrapper
-                asg = [n for n in walk_shallow(inner.node) if isinstance(n, ast.Assign) and isinstance(n.targets[0], ast.Name) and n.targets[0].id == a[0].id]
-                if asg and isinstance(asg[0].value, ast.Call) and p.resolve_call(inner, asg[0].value) is ws:
+            if len(a) == 1 and not c.keywords:
+                # the argument must be the WebSocket(...) wrapper (directly or through a local)
+                ds = defs_of(inner, a[0])
+                if ds and all(isinstance(d_, ast.Call) and p.resolve_call(inner, d_) is ws for d_ in ds):
                     okv = True
             if not okv:
                 rep.violation("R11.3", construct(inner, c), where(inner, c), "websocket_session hands the view something other than the WebSocket wrapper (raw channels leak)")
